@@ -5,8 +5,9 @@
    transition system, i.e. every interleaving of transport outcomes, cancellations and goroutine
    steps, of any length. *)
 From Coq Require Import List Arith Bool ZArith Permutation.
-From GS Require Import Base.LTS Model.Sender Model.Collector
-                       Proofs.Sender Proofs.SenderLive Proofs.Collector Proofs.CollectorFlusher.
+From GS Require Import Base.LTS Model.Sender Model.Collector Model.PostLoop
+                       Proofs.Sender Proofs.SenderLive Proofs.Collector Proofs.CollectorFlusher
+                       Proofs.PostLoop Proofs.PostLoopCollector.
 Import ListNotations.
 
 (* Socket backends (graphite, statsdaemon).  After ANY finite script of connects (ok / fail), timer
@@ -118,3 +119,91 @@ Theorem C16_flusher_returns :
        fstep s FNextFlush = Some (FS FProcessing 0 0 [] (S (flushes s)))).
 Proof. exact flusher_returns. Qed.
 Print Assumptions C16_flusher_returns.
+
+(* ---------------------------------------------------------------------------------------- *)
+(* The retry loops behind "the post of a batch returned e" (Model/PostLoop.v: datadog, influxdb,
+   newrelic incl. Retry-After, otlp), over ALL answer scripts [srv], ALL back-off oracles [bo]
+   (None = backoff.Stop) and ALL cancellation scripts [cx]; [fuel] only bounds the evaluation. *)
+
+(* If the oracle says Stop at its n-th call (the retry window has ended), a loop as written makes
+   at most n + 1 attempts and returns - whatever the server answers, 429 + Retry-After included. *)
+Theorem C16_post_terminates :
+  forall (b : backend) srv bo cx (n fuel : nat),
+    as_written b -> bo n = None -> n < fuel ->
+    exists r a sl, post b srv bo cx fuel = Done r a sl /\ a <= n + 1.
+Proof. exact post_terminates. Qed.
+Print Assumptions C16_post_terminates.
+
+(* Without the conjunct `next != backoff.Stop` in newrelic's Retry-After handling the loop never
+   ends against sustained 429 + Retry-After, even if the oracle says Stop at every call: for every
+   fuel it is still running. *)
+Theorem C16_post_legacy_refuted_retry_after :
+  forall (window k : Z) (fuel : nat),
+    (0 < k)%Z ->
+    post (Newrelic false window) (fun _ => A429 (Some k)) (fun _ => None) (fun _ => false) fuel = OutOfFuel.
+Proof. exact post_legacy_refuted_retry_after. Qed.
+Print Assumptions C16_post_legacy_refuted_retry_after.
+
+(* A finished run made >= 1 attempts; it returns nil iff its last attempt was a success; every
+   earlier attempt got a retryable failure (so no attempt follows a success); one timer per retry. *)
+Theorem C16_post_result :
+  forall (b : backend) srv bo cx fuel r a sl,
+    post b srv bo cx fuel = Done r a sl ->
+    1 <= a /\
+    (r = RNil <-> is_success b (srv (a - 1)) = true) /\
+    (forall j, j < a - 1 -> is_retry b (srv j) = true /\ is_success b (srv j) = false) /\
+    length sl = a - 1 + (if waits b srv bo (a - 1) then 1 else 0).
+Proof. exact post_result. Qed.
+Print Assumptions C16_post_result.
+
+(* Cancellation: the run returns ctx.Err() exactly when its last attempt reached the wait and the
+   ctx.Done() arm was taken there; no earlier wait took it; a wait whose Done arm is taken is the
+   last; and a Done arm at wait n bounds the run by n + 1 attempts whatever the oracle says. *)
+Theorem C16_post_ctx :
+  forall (b : backend) srv bo cx fuel r a sl,
+    post b srv bo cx fuel = Done r a sl ->
+    (r = RCtx <-> waits b srv bo (a - 1) = true /\ cx (a - 1) = true) /\
+    (forall j, j < a - 1 -> waits b srv bo j = true /\ cx j = false) /\
+    (waits b srv bo (a - 1) = true -> r = RCtx).
+Proof. exact post_ctx. Qed.
+Print Assumptions C16_post_ctx.
+
+Theorem C16_post_ctx_terminates :
+  forall (b : backend) srv bo cx (n fuel : nat),
+    cx n = true -> n < fuel ->
+    exists r a sl, post b srv bo cx fuel = Done r a sl /\ a <= n + 1.
+Proof. exact post_ctx_terminates. Qed.
+Print Assumptions C16_post_ctx_terminates.
+
+(* The collector with the loops in ([cstepL env]: a worker's result is what its own loop returns on
+   its own scripts): each created batch yields a result once its window ends, exactly once, and the
+   exactly-once theorem holds for the composed system. *)
+Theorem C16_worker_post_returns :
+  forall (env : nat -> wenv) (i n : nat),
+    as_written (w_b (env i)) -> w_bo (env i) n = None ->
+    exists e, lower env (LPost i (S n)) = Some (WPost i e).
+Proof. exact worker_post_returns. Qed.
+Print Assumptions C16_worker_post_returns.
+
+Theorem C16_worker_post_once :
+  forall (env : nat -> wenv) (s : cstate) (i fuel : nat) (s' : cstate),
+    cstepL env s (LPost i fuel) = Some s' ->
+    nth_error (workers s) i = Some WRun /\
+    (exists e, nth_error (workers s') i = Some (WPosted e)) /\
+    forall fuel', cstepL env s' (LPost i fuel') = None.
+Proof. exact worker_post_once. Qed.
+Print Assumptions C16_worker_post_once.
+
+Theorem C16_collector_exactly_once_with_loops :
+  forall (env : nat -> wenv) (ls : list llabel) (s : cstate),
+    run (cstepL env) cinit ls = Some s ->
+    length (cout s) <= 1 /\
+    (cph s = Called <-> length (cout s) = 1) /\
+    forall es, cout s = [es] ->
+      (existsb failed_batch (workers s) = true -> has_err es = true) /\
+      (all_sent (workers s) = false -> In ECtx es /\ cancelled s = true) /\
+      (cancelled s = false ->
+         all_sent (workers s) = true /\ Permutation es (sent_results (workers s))
+         /\ length es = length (workers s)).
+Proof. exact collector_exactly_once_with_loops. Qed.
+Print Assumptions C16_collector_exactly_once_with_loops.
